@@ -1,10 +1,15 @@
 (* C09 -- parsers are total.  Statements only; proofs in ParseTotal/*Props.v.
    Model: ParseTotal/Tokenizer.v, ParseTotal/OptionLine.v (explicit line memory, cursor
    as a free integer, every access recorded in a trace, fuel for every loop).
-   A statement that the faithful model falsifies is proved as *_refuted with a witness;
-   checks/C09.py replays every witness on the real code.  *_partial names the
-   hypothesis under which the claim holds for the code as it is, *_fixed is the full
-   claim for the repaired code (fixes/C09_*.patch).
+
+   Part A: the code AS IT IS in /repo (after commits 80c2730 990a9b4 336ceec 4afdf22
+   cee031a 5667f2e and the skip_comments / parsing-error repairs): the models
+   skip_comments_fixed, next_token_line_fixed, tokens_of_line_cur, back_scan_fixed,
+   mps_error_fixed, raise_parsing_error_fixed, fetch_line.  These are the full claims.
+   Part B: the code as it was BEFORE those repairs (skip_comments, next_token_line,
+   back_scan, mps_error, raise_parsing_error): the faithful model falsified the claims;
+   the refutations stay as theorems, their witnesses are replayed by checks/C09.py on
+   every run and must no longer reproduce (regression inputs).
    NOT proved (observed through ASan on the real code only): the forward scans of the
    option-line walk, the coefficient readers, the composition over whole files. *)
 Require Import ZArith List String Bool Lia ZifyBool.
@@ -13,28 +18,98 @@ Require Import MPSV.ParseTotal.TokenizerProps MPSV.ParseTotal.OptionLineProps.
 Import ListNotations.
 Open Scope Z_scope.
 
-(* ---- termination of mps_skip_comments -------------------------------------- *)
-(* full claim "forall input, exists fuel, <> OutOfFuel" is false: *)
-Theorem C09_skip_comments_terminates_refuted :
+(* ======================= Part A: the code as it is ========================== *)
+
+(* mps_skip_comments returns on every input within |input|+1 reads *)
+Theorem C09_skip_comments_terminates :
+  forall input, exists rest, skip_comments_fixed (S (List.length input)) input = Done rest.
+Proof. exact skip_comments_fixed_total. Qed.
+Print Assumptions C09_skip_comments_terminates.
+
+(* one call of next_token on a line with a terminator at or after the cursor: no fuel
+   exhaustion within cap+1 steps, no write, every read in [0,cap), invariant kept *)
+Theorem C09_tokenizer_in_bounds :
+  forall m off fuel,
+    (exists n, 0 <= off <= n /\ n < cap m /\ get m n = 0) -> cap m < Z.of_nat fuel ->
+    exists r off' tr,
+      next_token_line_fixed fuel m off = Done (r, m, off', tr)
+      /\ in_bounds (cap m) tr /\ (exists n, 0 <= off' <= n /\ n < cap m /\ get m n = 0).
+Proof. exact next_token_line_fixed_safe. Qed.
+Print Assumptions C09_tokenizer_in_bounds.
+
+(* the hypothesis is met by every line that either stream delivers: all the tokens of
+   any line of an in-memory string (growing buffer of commit 5667f2e) ... *)
+Theorem C09_tokenizer_in_bounds_memory_stream :
+  forall s rc m r k fuel res,
+    fetch_line MemStream None s = (rc, m, r) -> 0 < rc -> cap m < Z.of_nat fuel ->
+    tokens_of_line_cur k fuel m 0 [] [] = res ->
+    res = OutOfFuel \/ exists toks tr, res = Done (toks, tr) /\ in_bounds (cap m) tr.
+Proof. exact mem_stream_line_tokens_cur_in_bounds. Qed.
+Print Assumptions C09_tokenizer_in_bounds_memory_stream.
+
+(* ... and of any line read by getline from a FILE*, whatever its length *)
+Theorem C09_tokenizer_in_bounds_file_stream :
+  forall s rc m r k fuel res,
+    fetch_line FileStream None s = (rc, m, r) -> 0 < rc -> cap m < Z.of_nat fuel ->
+    tokens_of_line_cur k fuel m 0 [] [] = res ->
+    res = OutOfFuel \/ exists toks tr, res = Done (toks, tr) /\ in_bounds (cap m) tr.
+Proof. exact file_stream_line_tokens_cur_in_bounds. Qed.
+Print Assumptions C09_tokenizer_in_bounds_file_stream.
+
+Example C09_tokenizer_nonvacuous :
+  tokens_stream_cur 10 2000 MemStream (str "ab  cd" ++ [10] ++ str "!x" ++ [10] ++ str " e") [] false
+  = Done ([str "ab"; str "cd"; str "e"], false)
+  /\ tokens_stream_cur 10 2000 FileStream (repeat 120 119) [] false = Done ([repeat 120 119], false).
+Proof. split; vm_compute; reflexivity. Qed.
+
+(* the backward scan of mps_parse_option_line never leaves [option, c_ptr] *)
+Theorem C09_option_line_in_bounds_partial :
+  forall m c opt fuel p tr, 0 <= opt <= p -> p <= c -> p - opt < Z.of_nat fuel -> in_bounds c tr ->
+  exists q tr', back_scan_fixed fuel m opt p tr = Done (q, tr') /\ in_bounds c tr' /\ opt <= q <= p.
+Proof. exact back_scan_fixed_in_bounds. Qed.
+Print Assumptions C09_option_line_in_bounds_partial.
+(* partial: the forward scans (strchr, leading blanks) of the walk are not covered *)
+
+Example C09_option_line_nonvacuous :
+  parse_option_line_fixed 400 (str "  Degree = 5 ;") (fun _ => garbage)
+  = Done (OOpt FDegree (Some (str " 5")) None false)
+  /\ parse_option_line_fixed 400 (str ";") (fun _ => garbage)
+     = Done (OOpt FUndefined None (Some (MOk (str "Unrecognized option: "))) false).
+Proof. split; vm_compute; reflexivity. Qed.
+
+(* input text is not interpreted as a format string: any token arrives literally *)
+Theorem C09_no_format_injection :
+  forall lineno token message, 0 <= lineno ->
+  raise_parsing_error_fixed lineno token message = MOk (perr_prefix lineno ++ token).
+Proof. exact raise_parsing_error_fixed_literal. Qed.
+Print Assumptions C09_no_format_injection.
+
+(* and the option text of "Unrecognized option: %s" arrives whole, whatever its length *)
+Theorem C09_error_message_carries_argument :
+  forall o, mps_error_fixed (str "Unrecognized option: %s") [AStr o] = MOk (str "Unrecognized option: " ++ o).
+Proof. exact unrecognized_option_literal. Qed.
+Print Assumptions C09_error_message_carries_argument.
+
+Example C09_no_format_injection_nonvacuous :
+  raise_parsing_error_fixed 7 (str "%n%s") (str "C09MSG")
+  = MOk (str "Parsing error on line 7 near the token: %n%s").
+Proof. vm_compute. reflexivity. Qed.
+
+(* ================= Part B: the code before the repairs ====================== *)
+
+Theorem C09_before_fix_skip_comments_terminates_refuted :
   exists input, forall fuel, skip_comments fuel input = OutOfFuel.
 Proof. exists [33; 120]. exact skip_comments_bang_eof_hangs. Qed.
-Print Assumptions C09_skip_comments_terminates_refuted.
+Print Assumptions C09_before_fix_skip_comments_terminates_refuted.
 
-(* it holds, with fuel |input|+1, when every '!' is followed by a newline later on *)
-Theorem C09_skip_comments_terminates_partial :
+Theorem C09_before_fix_skip_comments_terminates_partial :
   forall input,
     (forall pre post, input = pre ++ 33 :: post -> In 10 post) ->
     exists rest, skip_comments (S (List.length input)) input = Done rest.
 Proof. exact skip_comments_partial. Qed.
-Print Assumptions C09_skip_comments_terminates_partial.
+Print Assumptions C09_before_fix_skip_comments_terminates_partial.
 
-(* the repaired loop terminates on every input within |input|+1 reads ... *)
-Theorem C09_skip_comments_terminates_fixed :
-  forall input, exists rest, skip_comments_fixed (S (List.length input)) input = Done rest.
-Proof. exact skip_comments_fixed_total. Qed.
-Print Assumptions C09_skip_comments_terminates_fixed.
-
-(* ... and changes nothing where the original returned *)
+(* the repair changed nothing where the old loop returned *)
 Theorem C09_skip_comments_fix_conservative :
   forall fuel input rest, skip_comments fuel input = Done rest -> skip_comments_fixed fuel input = Done rest.
 Proof. exact skip_comments_agree. Qed.
@@ -53,17 +128,14 @@ Proof.
     destruct pre; discriminate H3.
 Qed.
 
-(* ---- the tokenizer stays inside the line buffer ----------------------------- *)
-Theorem C09_tokenizer_in_bounds_refuted :
+Theorem C09_before_fix_tokenizer_in_bounds_refuted :
   exists (m : mem) tr r m' o',
     cap m = 120 /\ bytes_from m 0 120 = repeat 120 119 ++ [0] /\
     next_token_line 200 m 0 = Done (r, m', o', tr) /\ ~ in_bounds (cap m) tr.
 Proof. exact tokenizer_in_bounds_refuted. Qed.
-Print Assumptions C09_tokenizer_in_bounds_refuted.
+Print Assumptions C09_before_fix_tokenizer_in_bounds_refuted.
 
-(* with a terminator at or after the cursor and one more byte behind it: no fuel
-   exhaustion within cap+1 steps, every access in [0,cap), invariant kept *)
-Theorem C09_tokenizer_in_bounds_partial :
+Theorem C09_before_fix_tokenizer_in_bounds_partial :
   forall m off fuel,
     (exists n, 0 <= off <= n /\ n < cap m /\ get m n = 0 /\ (n = off \/ n + 1 < cap m)) ->
     cap m < Z.of_nat fuel ->
@@ -72,83 +144,38 @@ Theorem C09_tokenizer_in_bounds_partial :
       /\ in_bounds (cap m) tr /\ cap m' = cap m
       /\ (exists n, 0 <= off' <= n /\ n < cap m' /\ get m' n = 0 /\ (n = off' \/ n + 1 < cap m')).
 Proof. exact next_token_line_safe. Qed.
-Print Assumptions C09_tokenizer_in_bounds_partial.
+Print Assumptions C09_before_fix_tokenizer_in_bounds_partial.
 
-(* the hypothesis is met by every line of an in-memory string (mps_parse_string) *)
-Theorem C09_tokenizer_in_bounds_memory_stream :
-  forall s rc m r k fuel res,
-    fetch_line MemStream None s = (rc, m, r) -> 0 < rc -> (1024 < fuel)%nat ->
-    tokens_of_line k fuel m 0 [] [] = res ->
-    res = OutOfFuel \/ exists toks tr, res = Done (toks, tr) /\ in_bounds 1024 tr.
-Proof. exact mem_stream_line_tokens_in_bounds. Qed.
-Print Assumptions C09_tokenizer_in_bounds_memory_stream.
-
-(* the repaired tokenizer needs the terminator only *)
-Theorem C09_tokenizer_in_bounds_fixed :
-  forall m off fuel,
-    (exists n, 0 <= off <= n /\ n < cap m /\ get m n = 0) -> cap m < Z.of_nat fuel ->
-    exists r off' tr,
-      next_token_line_fixed fuel m off = Done (r, m, off', tr)
-      /\ in_bounds (cap m) tr /\ (exists n, 0 <= off' <= n /\ n < cap m /\ get m n = 0).
-Proof. exact next_token_line_fixed_safe. Qed.
-Print Assumptions C09_tokenizer_in_bounds_fixed.
-
-Example C09_tokenizer_nonvacuous :
-  tokens_stream 10 2000 MemStream (str "ab  cd" ++ [10] ++ str "!x" ++ [10] ++ str " e") [] false
-  = Done ([str "ab"; str "cd"; str "e"], false).
-Proof. vm_compute. reflexivity. Qed.
-
-(* ---- the option-line walk --------------------------------------------------- *)
-Theorem C09_option_line_in_bounds_refuted :
+Theorem C09_before_fix_option_line_in_bounds_refuted :
   exists opt o m' tr,
     option_walk 100 (line_mem (str ";") (fun _ => garbage)) 1 = Done (WOption opt o m' tr) /\ In (-1) tr.
 Proof. exact option_walk_semicolon_reads_before_buffer. Qed.
-Print Assumptions C09_option_line_in_bounds_refuted.
+Print Assumptions C09_before_fix_option_line_in_bounds_refuted.
 
-(* the backward scan `while (isspace ( *--c_ptr) && real_length--)` ends within
-   real_length+1 steps for ANY memory contents, inside the buffer or not *)
-Theorem C09_option_line_total_partial :
+(* the old backward scan `while (isspace ( *--c_ptr) && real_length--)` at least ended
+   within real_length+1 steps for ANY memory contents, inside the buffer or not *)
+Theorem C09_before_fix_option_line_total_partial :
   forall m fuel p rl tr, 0 <= rl < Z.of_nat fuel ->
   exists q tr', back_scan fuel m p rl tr = Done (q, tr') /\ p - rl - 1 <= q < p.
 Proof. exact back_scan_total. Qed.
-Print Assumptions C09_option_line_total_partial.
+Print Assumptions C09_before_fix_option_line_total_partial.
 
-(* the repaired backward scan never leaves [option, c_ptr] *)
-Theorem C09_option_line_in_bounds_fixed :
-  forall m c opt fuel p tr, 0 <= opt <= p -> p <= c -> p - opt < Z.of_nat fuel -> in_bounds c tr ->
-  exists q tr', back_scan_fixed fuel m opt p tr = Done (q, tr') /\ in_bounds c tr' /\ opt <= q <= p.
-Proof. exact back_scan_fixed_in_bounds. Qed.
-Print Assumptions C09_option_line_in_bounds_fixed.
-
-Example C09_option_line_nonvacuous :
-  parse_option_line 400 (str "  Degree = 5 ;") (fun _ => garbage)
-  = Done (OOpt FDegree (Some (str " 5")) None false).
-Proof. vm_compute. reflexivity. Qed.
-
-(* ---- input text is not interpreted as a format string ------------------------ *)
-Theorem C09_no_format_injection_refuted :
+Theorem C09_before_fix_no_format_injection_refuted :
   (raise_parsing_error 7 (str "%%") (str "C09MSG") = MOk (perr_prefix 7 ++ str "%")
    /\ perr_prefix 7 ++ str "%" <> perr_prefix 7 ++ str "%%")
   /\ raise_parsing_error 7 (str "%n") (str "C09MSG") = MWild.
 Proof. split; [exact format_interpreted_witness|exact format_wild_witness]. Qed.
-Print Assumptions C09_no_format_injection_refuted.
+Print Assumptions C09_before_fix_no_format_injection_refuted.
 
-Theorem C09_no_format_injection_partial :
+Theorem C09_before_fix_no_format_injection_partial :
   forall lineno token message, 0 <= lineno -> ~ In 37 token ->
   raise_parsing_error lineno token message = MOk (perr_prefix lineno ++ token).
 Proof. exact raise_parsing_error_literal. Qed.
-Print Assumptions C09_no_format_injection_partial.
+Print Assumptions C09_before_fix_no_format_injection_partial.
 
-Theorem C09_no_format_injection_fixed :
-  forall lineno token message, 0 <= lineno ->
-  raise_parsing_error_fixed lineno token message = MOk (perr_prefix lineno ++ token).
-Proof. exact raise_parsing_error_fixed_literal. Qed.
-Print Assumptions C09_no_format_injection_fixed.
-
-(* mps_error re-reads a consumed va_list when the text needs more than 32 bytes *)
-Theorem C09_error_message_va_list_refuted :
+Theorem C09_before_fix_error_message_va_list_refuted :
   mps_error (str "Unrecognized option: %s") [AStr (str "floatingpointt")] = MWild
   /\ mps_error_fixed (str "Unrecognized option: %s") [AStr (str "floatingpointt")]
      = MOk (str "Unrecognized option: floatingpointt").
 Proof. exact va_list_reuse_witness. Qed.
-Print Assumptions C09_error_message_va_list_refuted.
+Print Assumptions C09_before_fix_error_message_va_list_refuted.
